@@ -9,6 +9,11 @@ CLAIMED = {
   design="DESIGN.md §3 C04"),
 }
 
+CLAIMED["C15"] = dict(
+  text="Deductive proof (govc) that every Similar method equals its tolerance spec: point/multipoint/linestring/bounds are true exactly for equal type, equal length and |dx|,|dy| < tol at every vertex; the four greedy-matching methods (MultiLineString, MultiPolygon, Polygon rings, GeometryCollection) are false on type mismatch and on different member counts, never index out of range (matched-index bookkeeping proved with loop invariants over the in-place removal), MultiLineString additionally matches every member to some member of the other side; minPt is the first lexicographically least vertex; ringSimilar never panics. Symmetry/displacement/perturbation consequences are machine-checked lemmas over the specs. Real arithmetic.",
+  note="Trusted: A-ENGINE, A-SMT, A-INT, A-REAL (float64 subtraction/abs/compare as exact reals: the tolerance comparison has no rounding model). Not decided: bijectivity of the greedy matching (completeness under unambiguous inputs), rotation invariance of ringSimilar as a functional spec (only safety and length are proved), symmetry of the four matching methods. interface Geom.Similar is used with a nil-*Bounds precondition on collection members.",
+  design="DESIGN.md §3 C15")
+
 NA = {}
 
 def main():
